@@ -294,7 +294,10 @@ func (g *jgen) value(depth int) {
 // deliberately included Prepend / extreme-number cases which are still JSON).
 func genJSON(r *hv.Rng, feat map[string]int) string {
 	g := &jgen{r: r, feat: feat, wild: r.Chance(0.35)}
-	depth := r.Small(5)
+	depth := 1 + r.Small(4)
+	if r.Chance(0.15) {
+		depth = 0
+	}
 	if r.Chance(0.03) {
 		// deep nesting
 		d := 20 + r.Intn(180)
@@ -438,6 +441,30 @@ func mutate(r *hv.Rng, s string) (string, string) {
 				q = len(b)
 			}
 			return string(insertAt(b, q, string(b[p:q]))), "duplicate-chunk"
+		}
+	case 13: // a colon where a comma belongs / after an opening bracket (colon in array, doubled colon)
+		ps := append(findAll(b, ','), findAll(b, '[')...)
+		if p, ok := pick(ps); ok {
+			if b[p] == ',' && r.Chance(0.5) {
+				c := append([]byte(nil), b...)
+				c[p] = ':'
+				return string(c), "comma-to-colon"
+			}
+			return string(insertAt(b, p+1, ":")), "stray-colon"
+		}
+	case 14: // object member without value, or trailing comma in an object
+		if p, ok := pick(findAll(b, ':')); ok {
+			if r.Chance(0.5) {
+				// drop the colon and everything up to the next , or }
+				q := p
+				for q < len(b) && b[q] != ',' && b[q] != '}' {
+					q++
+				}
+				return string(append(b[:p:p], b[q:]...)), "member-without-value"
+			}
+		}
+		if p, ok := pick(findAll(b, '}')); ok {
+			return string(insertAt(b, p, ",")), "trailing-comma-object"
 		}
 	}
 	// default: insert a near-miss fragment at a random place
